@@ -155,6 +155,7 @@ type Stats struct {
 	ReaderRefuse int // probe: a reader was refused because a writer was pending
 	SameLockWait int // probe: two tasks parked on the same object
 	MidOpSwitch  int // probe: a task was preempted between two lock acquisitions of one public call
+	AtomicOps    int // scheduling points taken before sync/atomic operations of the code under test
 	Sig          uint64
 	SimNanos     int64
 }
@@ -445,6 +446,18 @@ func Yield() {
 	if t == nil {
 		return
 	}
+	s.park(t, OpPlain, nil)
+}
+
+// AtomicYield is the scheduling point the simatomic shim takes before every atomic operation.
+//
+//go:norace
+func AtomicYield() {
+	s, t := Current()
+	if t == nil {
+		return
+	}
+	s.St.AtomicOps++
 	s.park(t, OpPlain, nil)
 }
 
